@@ -69,6 +69,49 @@ Proof.
   apply Nat.eqb_neq in E. destruct H as [H|H]; [congruence|apply IH; exact H].
 Qed.
 
+(* ---------- next_symbol: also defined on symbols outside the alphabet ---------- *)
+Lemma next_sym_in l a : In a l -> forall r n, sym_succ l a = Ok n -> next_sym l r a = n.
+Proof.
+  intros Ha r n H. unfold next_sym. destruct (memb a l) eqn:E; [rewrite H; reflexivity|].
+  apply memb_false in E. contradiction.
+Qed.
+
+Lemma next_sym_out l a r : ~ In a l -> next_sym l r a = find (fun b => if r then b <? a else a <? b) l.
+Proof. intro Ha. unfold next_sym. destruct (memb a l) eqn:E; [apply memb_In in E; contradiction|reflexivity]. Qed.
+
+Lemma find_gt_some l : ssorted l -> forall a b, find (fun b => a <? b) l = Some b ->
+  In b l /\ a < b /\ forall y, In y l -> y < b -> y <= a.
+Proof.
+  induction l as [|x r IH]; intros Hs a b H; simpl in H; [discriminate|].
+  destruct (a <? x) eqn:E.
+  - inversion H; subst x. apply Nat.ltb_lt in E. split; [left; reflexivity|]. split; [exact E|].
+    intros y [Hy|Hy] Hyb; [lia|]. pose proof (ssorted_lt _ _ Hs y Hy). lia.
+  - apply Nat.ltb_ge in E. destruct (IH (ssorted_tail _ _ Hs) a b H) as [Hb [Hab Hadj]].
+    split; [right; exact Hb|]. split; [exact Hab|]. intros y [Hy|Hy] Hyb; [lia|apply Hadj; assumption].
+Qed.
+
+Lemma find_gt_none l a : find (fun b => a <? b) l = None -> forall y, In y l -> y <= a.
+Proof.
+  intros H y Hy. pose proof (find_none _ _ H y Hy) as E. simpl in E. apply Nat.ltb_ge in E. exact E.
+Qed.
+
+Lemma next_sym_fwd_some l : ssorted l -> forall a b, next_sym l false a = Some b ->
+  In b l /\ a < b /\ forall y, In y l -> y < b -> y <= a.
+Proof.
+  intros Hs a b H. destruct (in_dec Nat.eq_dec a l) as [Ha|Ha].
+  - destruct (sym_succ_total l a Ha) as [n En]. rewrite (next_sym_in l a Ha false n En) in H. subst n.
+    destruct (sym_succ_some l Hs a b En) as [_ [Hb [Hab Hadj]]]. auto.
+  - rewrite (next_sym_out l a false Ha) in H. exact (find_gt_some l Hs a b H).
+Qed.
+
+Lemma next_sym_fwd_none l : ssorted l -> forall a, next_sym l false a = None -> forall y, In y l -> y <= a.
+Proof.
+  intros Hs a H. destruct (in_dec Nat.eq_dec a l) as [Ha|Ha].
+  - destruct (sym_succ_total l a Ha) as [n En]. rewrite (next_sym_in l a Ha false n En) in H. subst n.
+    exact (proj2 (sym_succ_none l Hs a En)).
+  - rewrite (next_sym_out l a false Ha) in H. exact (find_gt_none l a H).
+Qed.
+
 (* ---------- three facts about the dictionary order over a sorted alphabet ---------- *)
 Section OrderFacts.
   Variable syms : list nat.
@@ -130,10 +173,9 @@ Section OrderFacts.
   Fixpoint apos_none (cs : list nat) : option word :=
     match cs with
     | [] => None
-    | c :: cs' => match sym_succ syms c with
-                  | Ok (Some b) => Some (rev cs' ++ [b])
-                  | Ok None => apos_none cs'
-                  | Err _ => None
+    | c :: cs' => match next_sym syms false c with
+                  | Some b => Some (rev cs' ++ [b])
+                  | None => apos_none cs'
                   end
     end.
   Definition apos (cs : list nat) (cand : option nat) : option word :=
@@ -142,29 +184,26 @@ Section OrderFacts.
     | None => apos_none cs
     end.
 
-  Lemma apos_none_cons c cs n : sym_succ syms c = Ok n -> apos (c :: cs) None = apos cs n.
-  Proof. intro H. unfold apos. simpl. rewrite H. destruct n; reflexivity. Qed.
+  Lemma apos_none_cons c cs : apos (c :: cs) None = apos cs (next_sym syms false c).
+  Proof. unfold apos. simpl. destruct (next_sym syms false c); reflexivity. Qed.
 
   Definition lt_pos (w : word) (pos : option word) : Prop :=
     match pos with None => True | Some x => lex_lt w x end.
 
   Hypothesis Hss : ssorted syms.
 
-  Lemma apos_succ : forall cs a n, In a syms -> ov cs -> sym_succ syms a = Ok n ->
-    forall w, ov w -> (lt_pos w (apos cs n) <-> lex_lt w (rev cs ++ [a]) \/ is_prefix (rev cs ++ [a]) w).
+  (* neither the stack word nor the symbol a has to be over the alphabet *)
+  Lemma apos_succ : forall cs a w, ov w ->
+    (lt_pos w (apos cs (next_sym syms false a)) <-> lex_lt w (rev cs ++ [a]) \/ is_prefix (rev cs ++ [a]) w).
   Proof.
-    induction cs as [|c cs IH]; intros a n Ha Hcs Hn w Hw.
-    - destruct n as [b|]; simpl.
-      + destruct (sym_succ_some _ Hss _ _ Hn) as [_ [_ [Hab Hadj]]]. exact (adj_lt a b Hab Hadj [] w Hw).
-      + destruct (sym_succ_none _ Hss _ Hn) as [_ Hmax]. pose proof (max_lt a Hmax [] w Hw) as H.
-        simpl in H. split; [intros _; apply H; right; apply is_prefix_nil|trivial].
-    - destruct n as [b|].
-      + destruct (sym_succ_some _ Hss _ _ Hn) as [_ [_ [Hab Hadj]]].
-        exact (adj_lt a b Hab Hadj (rev (c :: cs)) w Hw).
-      + inversion Hcs as [|? ? Hc Hcs']; subst. destruct (sym_succ_total syms c Hc) as [n' Hn'].
-        rewrite (apos_none_cons c cs n' Hn'). destruct (sym_succ_none _ Hss _ Hn) as [_ Hmax].
-        pose proof (IH c n' Hc Hcs' Hn' w Hw) as H1.
-        pose proof (max_lt a Hmax (rev cs ++ [c]) w Hw) as H2. simpl rev. tauto.
+    induction cs as [|c cs IH]; intros a w Hw; destruct (next_sym syms false a) as [b|] eqn:Hn.
+    - destruct (next_sym_fwd_some _ Hss _ _ Hn) as [_ [Hab Hadj]]. exact (adj_lt a b Hab Hadj [] w Hw).
+    - pose proof (max_lt a (next_sym_fwd_none _ Hss _ Hn) [] w Hw) as H.
+      simpl in H. simpl. split; [intros _; apply H; right; apply is_prefix_nil|trivial].
+    - destruct (next_sym_fwd_some _ Hss _ _ Hn) as [_ [Hab Hadj]].
+      exact (adj_lt a b Hab Hadj (rev (c :: cs)) w Hw).
+    - rewrite (apos_none_cons c cs). pose proof (IH c w Hw) as H1.
+      pose proof (max_lt a (next_sym_fwd_none _ Hss _ Hn) (rev cs ++ [c]) w Hw) as H2. simpl rev. tauto.
   Qed.
 End OrderFacts.
 
@@ -204,8 +243,10 @@ Section Fwd.
     - destruct ss as [|s ss']; [intros []|]. intros [H _]. exists ss'. rewrite H. reflexivity.
   Qed.
 
+  (* the start word may hold symbols outside the alphabet, so nothing is said about the char stack *)
   Definition wf (C : cfg) : Prop :=
-    stack_ok (c_states C) (c_chars C) /\ ov (c_chars C) /\ forall a, c_cand C = Some a -> In a syms.
+    stack_ok (c_states C) (c_chars C) /\ forall a, c_cand C = Some a -> In a syms.
+
 
   Definition pending (C : cfg) : Prop := c_cand C = Some first /\ c_yield C = true.
 
@@ -326,14 +367,18 @@ Section Fwd.
       + intros w Hw Hn'. apply HA; [exact Hw|]. intro H. apply Hn'. apply Hstep; [exact Hw|left; exact H].
   Qed.
 
-  Lemma succ_not_first a b : sym_succ syms a = Ok (Some b) -> b <> first.
-  Proof.
-    intro H. destruct (sym_succ_some _ Hss _ _ H) as [Ha [_ [Hab _]]]. specialize (Hfirst a Ha). lia.
-  Qed.
+  (* the successor of a symbol that is not below the whole alphabet is never the first symbol *)
+  Lemma succ_not_first a b : first <= a -> next_sym syms false a = Some b -> b <> first.
+  Proof. intros Ha H. destruct (next_sym_fwd_some _ Hss _ _ H) as [_ [Hab _]]. lia. Qed.
 
-  Lemma not_pending_succ ss cs a n y : sym_succ syms a = Ok n -> ~ pending (mkcfg ss cs n y).
+  Lemma not_pending_succ ss cs a y : first <= a -> ~ pending (mkcfg ss cs (next_sym syms false a) y).
+  Proof. intros Ha [Hc _]. simpl in Hc. exact (succ_not_first a first Ha Hc eq_refl). Qed.
+
+  (* back at the parent (366d64a): should_yield is false exactly when the candidate is the first symbol *)
+  Lemma not_pending_back ss cs n : ~ pending (mkcfg ss cs n (negb (eqb_opt Nat.eqb n (Some first)))).
   Proof.
-    intros H [Hc _]. simpl in Hc. subst n. exact (succ_not_first a first H eq_refl).
+    intros [Hc Hy]. simpl in Hc, Hy. subst n.
+    rewrite (eqb_ok_refl _ (eqb_opt_ok Nat.eqb eqb_nat_ok)) in Hy. discriminate.
   Qed.
 
   (* one loop iteration preserves well-formedness and the invariant *)
@@ -341,7 +386,7 @@ Section Fwd.
     wf C -> Inv out C -> mstep m co syms first false lo ohi C = Ok (y, C') ->
     wf C' /\ Inv (out ++ y) C'.
   Proof.
-    intros [Hst [Hov Hcand]] Hinv H. unfold mstep in H.
+    intros [Hst Hcand] Hinv H. unfold mstep in H.
     destruct (stack_top _ _ Hst) as [below Ess]. rewrite Ess in H. cbv zeta in H. simpl negb in H.
     remember (emit m lo ohi C (run (rev (c_chars C))) true (eqb_opt Nat.eqb (c_cand C) (Some first))) as y1 eqn:Ey1.
     assert (Hemit0 : emit m lo ohi C (run (rev (c_chars C))) false true = []) by reflexivity.
@@ -356,9 +401,8 @@ Section Fwd.
       destruct (in_co co (ostep m (run p) a) && can_descend ohi (length (c_chars C))) eqn:Evi; intro H.
       + (* descend *)
         inversion H; subst y C'; clear H. split.
-        * split; [|split]; simpl.
+        * split; simpl.
           -- split; [|rewrite <- Ess; exact Hst]. fold p. rewrite dfa_run_app. reflexivity.
-          -- constructor; assumption.
           -- intros x Hx. inversion Hx; subst. exact Hfirst_in.
         * rewrite Ey1. apply (inv_advance out C _ (fun _ => False)); [exact Hinv| |tauto].
           intros w Hw. unfold inP. simpl c_chars. simpl c_cand. rewrite Ec. unfold apos. rewrite Hpa. fold p. simpl lt_pos.
@@ -377,16 +421,17 @@ Section Fwd.
                 ** apply Hfl. left. exact H1.
                 ** intros [_ E]. subst w. exact (lex_lt_irrefl _ H1).
       + (* next sibling *)
-        revert H. destruct (sym_succ syms a) as [n|e] eqn:En; simpl; intro H; [|discriminate].
-        inversion H; subst y C'; clear H. split.
-        * split; [|split]; simpl; [rewrite <- Ess; exact Hst|exact Hov|].
-          intros x Hx. subst n. destruct (sym_succ_some _ Hss _ _ En) as [_ [Hb _]]. exact Hb.
+        inversion H; subst y C'; clear H.
+        assert (Hfa : first <= a) by (apply Hfirst; exact Ha).
+        split.
+        * split; simpl; [rewrite <- Ess; exact Hst|].
+          intros x Hx. destruct (next_sym_fwd_some _ Hss _ _ Hx) as [Hb _]. exact Hb.
         * rewrite Ey1.
           apply (inv_advance out C _ (fun w => is_prefix (p ++ [a]) w)); [exact Hinv| |].
           -- intros w Hw. unfold inP. simpl c_chars. simpl c_cand. rewrite Ec.
              unfold apos at 2. fold p. simpl lt_pos.
-             pose proof (apos_succ syms Hss (c_chars C) a n Ha Hov En w Hw) as Hk. fold p in Hk.
-             pose proof (not_pending_succ (c_states C) (c_chars C) a n true En) as Hnp.
+             pose proof (apos_succ syms Hss (c_chars C) a w Hw) as Hk. fold p in Hk.
+             pose proof (not_pending_succ (c_states C) (c_chars C) a true Hfa) as Hnp.
              destruct (pend_dec C w) as [Hpw|Hpw]; fold p in Hpw.
              ++ destruct Hpw as [Hp Ew]. subst w. split; [intros _; right; left; split; [exact Hp|reflexivity]|].
                 intros _. split; [apply Hk; left; apply lex_lt_prefix|tauto].
@@ -399,18 +444,18 @@ Section Fwd.
       assert (Hy1 : y1 = []).
       { rewrite Ey1. unfold emit. simpl. rewrite ?andb_false_r. reflexivity. }
       clear Ey1. subst y1. unfold p in *. clear p.
-      revert H Hst Hov Hinv. destruct (c_chars C) as [|a cs] eqn:Ecs; intros H Hst Hov Hinv; [discriminate|].
-      revert H. destruct (sym_succ syms a) as [n|e] eqn:En; simpl; intro H; [|discriminate].
-      inversion H; subst y C'; clear H. simpl app. rewrite app_nil_r.
-      simpl in Hst. rewrite Ess in Hst. destruct Hst as [_ Hst]. inversion Hov as [|? ? Ha Hov']; subst.
+      revert H Hst Hinv. destruct (c_chars C) as [|a cs] eqn:Ecs; intros H Hst Hinv; [discriminate|].
+      cbv zeta in H. inversion H; subst y C'; clear H. simpl app. rewrite app_nil_r.
+      simpl in Hst. rewrite Ess in Hst. destruct Hst as [_ Hst].
+      set (nxt := next_sym syms false a) in *.
       split.
-      + split; [|split]; simpl; [exact Hst|exact Hov'|].
-        intros x Hx. subst n. destruct (sym_succ_some _ Hss _ _ En) as [_ [Hb _]]. exact Hb.
+      + split; simpl; [exact Hst|].
+        intros x Hx. destruct (next_sym_fwd_some _ Hss _ _ Hx) as [Hb _]. exact Hb.
       + destruct Hinv as [Hs [Hc HA]].
-        assert (Heq : forall w, inP (mkcfg below cs n true) w <-> inP C w).
+        assert (Heq : forall w, inP (mkcfg below cs nxt (negb (eqb_opt Nat.eqb nxt (Some first)))) w <-> inP C w).
         { intro w. unfold inP. rewrite Ecs, Ec. simpl c_chars. simpl c_cand.
-          rewrite (apos_none_cons syms a cs n En).
-          pose proof (not_pending_succ below cs a n true En) as Hnp.
+          rewrite (apos_none_cons syms a cs). fold nxt.
+          pose proof (not_pending_back below cs nxt) as Hnp.
           assert (Hnp' : ~ pending C) by (intros [Hx _]; congruence).
           tauto. }
         split; [exact Hs|split].
@@ -456,37 +501,56 @@ Proof.
       rewrite rev_involutive, dfa_run_app, <- Hq. reflexivity.
 Qed.
 
+(* over the empty alphabet the guard is the whole specification *)
+Lemma dict_order_nil hi : dict_order [] hi = [[]].
+Proof. destruct hi; reflexivity. Qed.
+
+Lemma empty_guard_succ m start strict lo hi : set_of (d_syms m) = [] ->
+  empty_alphabet_guard m start strict false lo = succ_list m start strict lo hi.
+Proof.
+  intro E. unfold succ_list, empty_alphabet_guard. rewrite E, dict_order_nil. simpl filter.
+  unfold succ_keep, in_window, dfa_acc, dfa_acc_from. simpl.
+  destruct (memb (d_init m) (d_finals m)); destruct (lo <=? 0); simpl; rewrite ?andb_false_r; try reflexivity;
+    destruct start as [[|c s]|]; destruct strict; reflexivity.
+Qed.
+
+Lemma empty_guard_pred m start strict lo hi : set_of (d_syms m) = [] ->
+  empty_alphabet_guard m start strict true lo = pred_list m start strict lo hi.
+Proof.
+  intro E. unfold pred_list, empty_alphabet_guard. rewrite E, dict_order_nil. simpl filter.
+  unfold pred_keep, in_window, dfa_acc, dfa_acc_from. simpl.
+  destruct (memb (d_init m) (d_finals m)); destruct (lo <=? 0); simpl; rewrite ?andb_false_r; try reflexivity;
+    destruct start as [[|c s]|]; destruct strict; reflexivity.
+Qed.
+
+(* nothing is assumed about the start word: its symbols may lie inside, below, between or above
+   the alphabet's *)
 Theorem machine_forward_correct fuel m start strict lo ohi l :
   valid_dfa m = true ->
   (ohi = None -> finite_lang (L_dfa m)) ->
-  (forall s, start = Some s -> Forall (fun a => In a (d_syms m)) s) ->
   succ_machine fuel m start strict false lo ohi = Ok l ->
   l = succ_list m start strict lo (the_hi m ohi).
 Proof.
-  intros Hv Hfin Hstart H. unfold succ_machine in H. simpl in H.
+  intros Hv Hfin H. unfold succ_machine in H. simpl in H.
   destruct (coreach_states_ok m Hv) as [co [Eco Hco]]. rewrite Eco in H. simpl in H.
   unfold machine_syms in H.
   pose proof (set_of_sorted (d_syms m)) as Hss.
-  destruct (set_of (d_syms m)) as [|first rest] eqn:Esy; [discriminate|].
+  destruct (set_of (d_syms m)) as [|first rest] eqn:Esy.
+  { inversion H. apply empty_guard_succ. exact Esy. }
   assert (Hsy : forall a, In a (first :: rest) <-> In a (d_syms m)) by (intro a; rewrite <- Esy; apply set_of_In).
   assert (Hfirst : forall y, In y (first :: rest) -> first <= y).
   { intros y [<-|Hy]; [lia|]. pose proof (ssorted_lt _ _ Hss y Hy). lia. }
   assert (Hfin_in : In first (first :: rest)) by (left; reflexivity).
-  assert (Hov : forall w, Forall (fun a => In a (d_syms m)) w -> Forall (fun a => In a (first :: rest)) w).
-  { intros w Hw. rewrite Forall_forall in *. intros a Ha. apply Hsy. apply Hw. exact Ha. }
   set (C0 := init_cfg m first start strict false) in *.
   assert (Hwf : wf m (first :: rest) C0).
-  { unfold C0, init_cfg. destruct start as [s|]; (split; [|split]); simpl.
+  { unfold C0, init_cfg. destruct start as [s|]; split; simpl.
     - apply (trace_rev_ok m s [] [] (Some (d_init m))); reflexivity.
-    - apply Forall_rev. apply Hov. apply Hstart. reflexivity.
     - intros a Ha. inversion Ha; subst. exact Hfin_in.
     - reflexivity.
-    - constructor.
     - intros a Ha. inversion Ha; subst. exact Hfin_in. }
   assert (Hinv : Inv m start strict lo ohi (first :: rest) first [] C0).
   { unfold C0, init_cfg. destruct start as [s|].
-    - assert (Hs : Forall (fun a => In a (first :: rest)) s) by (apply Hov; apply Hstart; reflexivity).
-      split; [constructor|]. unfold inP, pending. simpl. rewrite rev_involutive. split.
+    - split; [constructor|]. unfold inP, pending. simpl. rewrite rev_involutive. split.
       + intro w. split; [intros []|]. intros [Hsp [H1 H2]].
         pose proof (spec_over m Hv (Some s) strict lo ohi (first :: rest) Hsy w Hsp) as Hw.
         apply (first_lt (first :: rest) first Hfirst s w Hw) in H1.
